@@ -19,10 +19,15 @@ Case formats (JSON-able, sufficient for `replay`):
            ops: "addP<i>", "addS<i>", "createC", "createR", "clearP", "clearC", "clearS",
            "clearR"; the genes are added first, then `init`, then `ops`; the clauses are
            evaluated on the state after the last operation.
+  regions: {"fn": "regions", "L": 80, "circ": bool, "subs": [[s, e], ...], "order": [i, ...]}
+           pairwise disjoint subregions; one Region per subregion is built with the real
+           constructor and handed to `add_region` in the given order (the public way to add
+           regions one by one); the numbering / link clauses are evaluated afterwards.
 """
 from __future__ import annotations
 
 import itertools
+import logging
 from typing import Any, Dict, Iterable, List, Optional, Sequence, Tuple
 
 from bounded._c05_geom import (
@@ -47,7 +52,9 @@ RULE = ("layout: every multiset of 1..4 areas (protocluster-derived candidate cl
         "history: every legal sequence of <= 4 operations add_protocluster / add_subregion / "
         "create_candidate_clusters / create_regions / clear_* from three initial states over a "
         "pool of 3 protoclusters, 2 subregions and 3 genes; non-trivial = contains a clear_* or "
-        "a create_*; distinct = distinct case.")
+        "a create_*; regions: every choice of 3 (4) pairwise disjoint one-cell subregions of the "
+        "8 cells, plus the variants with an origin-spanning two-cell subregion, added as Regions "
+        "through add_region in every order; distinct = distinct case.")
 EXHAUSTIVE = {"quick": True, "thorough": False}
 
 CELL = 10
@@ -218,6 +225,23 @@ def _histories(tier: str) -> Iterable[Dict[str, Any]]:
                         stack.append((ops + [op], following))
 
 
+def _region_orders(tier: str) -> Iterable[Dict[str, Any]]:
+    cells = [[c * CELL, (c + 1) * CELL] for c in range(CELLS)]
+    spanning = [(CELLS - 1) * CELL, CELL]
+    choices: List[Tuple[bool, List[List[int]]]] = []
+    for count in (3, 4):
+        for combo in itertools.combinations(cells, count):
+            choices.append((False, [list(arc) for arc in combo]))
+            choices.append((True, [list(arc) for arc in combo]))
+        for combo in itertools.combinations(cells[1:-1], count - 1):
+            choices.append((True, [list(spanning)] + [list(arc) for arc in combo]))
+    for circular, subs in choices:
+        for order in itertools.permutations(range(len(subs))):
+            if tier == "quick" and len(subs) == 4 and not circular and order[0] > 1:
+                continue
+            yield {"fn": "regions", "L": LENGTH, "circ": circular, "subs": subs, "order": list(order)}
+
+
 # ---------------------------------------------------------------------------------------------
 # sharding
 # ---------------------------------------------------------------------------------------------
@@ -226,8 +250,10 @@ HISTORY_SHARDS = 8
 
 
 def shards(tier: str, seed: int) -> list:
+    make_record(10, False)        # import antismash once, before the driver forks its workers
     out = [{"fn": "layout", "tier": tier, "index": i, "of": LAYOUT_SHARDS} for i in range(LAYOUT_SHARDS)]
     out += [{"fn": "history", "tier": tier, "index": i, "of": HISTORY_SHARDS} for i in range(HISTORY_SHARDS)]
+    out += [{"fn": "regions", "tier": tier, "index": i, "of": 4} for i in range(4)]
     if tier != "quick":
         out += [{"fn": "random", "tier": tier, "index": i, "of": 16} for i in range(16)]
     return out
@@ -237,8 +263,10 @@ def run_shard(shard: Dict[str, Any], run: Any) -> None:
     if shard["fn"] == "random":
         _run_random(run)
         return
-    source = _layouts(shard["tier"]) if shard["fn"] == "layout" else _histories(shard["tier"])
+    source = {"layout": _layouts, "history": _histories, "regions": _region_orders}[shard["fn"]](shard["tier"])
     for case in itertools.islice(source, shard["index"], None, shard["of"]):
+        if run.out_of_time():               # budget exhausted: the run is reported as truncated
+            return
         _check_case(run, case)
 
 
@@ -507,8 +535,27 @@ def _evaluate_history(case: Dict[str, Any]) -> Tuple[List[Tuple[str, bool, str]]
     return results, nontrivial
 
 
+def _evaluate_regions(case: Dict[str, Any]) -> Tuple[List[Tuple[str, bool, str]], bool]:
+    from antismash.common.secmet.features import Region
+    length = case["L"]
+    record = make_record(length, case["circ"])
+    subs = [make_subregion(arc, f"s{i}", length) for i, arc in enumerate(case["subs"])]
+    try:
+        for sub in subs:
+            record.add_subregion(sub)
+        for index in case["order"]:
+            record.add_region(Region(subregions=[subs[index]]))
+    except Exception as err:  # pylint: disable=broad-except
+        return [(NO_EXC, False, describe_exception(err))], True
+    results = _region_clauses(record, list(record.get_subregions()))
+    results.extend(_state_clauses(record))
+    return results, True
+
+
 def _evaluate(case: Dict[str, Any]) -> Tuple[List[Tuple[str, bool, str]], bool]:
     try:
+        if case["fn"] == "regions":
+            return _evaluate_regions(case)
         if case["fn"] == "layout":
             return _evaluate_layout(case)
         return _evaluate_history(case)
@@ -517,7 +564,7 @@ def _evaluate(case: Dict[str, Any]) -> Tuple[List[Tuple[str, bool, str]], bool]:
 
 
 def _check_case(run: Any, case: Dict[str, Any]) -> None:
-    results, nontrivial = _evaluate(case)
+    results, nontrivial = _quietly(case)
     for clause, ok, detail in results:
         if not ok:
             for finding, predicate in FINDING_CLASSES.items():
@@ -529,8 +576,18 @@ def _check_case(run: Any, case: Dict[str, Any]) -> None:
         run.check(clause, ok, case, nontrivial=nontrivial, detail=detail)
 
 
+def _quietly(case: Dict[str, Any]) -> Tuple[List[Tuple[str, bool, str]], bool]:
+    """_evaluate with the logging of the code under test ("existing region overlaps") muted."""
+    previous = logging.root.manager.disable
+    logging.disable(logging.CRITICAL)
+    try:
+        return _evaluate(case)
+    finally:
+        logging.disable(previous)
+
+
 def replay(case: Dict[str, Any]) -> List[str]:
-    results, _ = _evaluate(case)
+    results, _ = _quietly(case)
     return [f"{clause}: {detail}" for clause, ok, detail in results if not ok]
 
 
@@ -641,6 +698,29 @@ def _is_f1(clause: str, case: Dict[str, Any]) -> bool:
     return _model_regions(case, exact=True)[0]
 
 
+def _some_span_inflated(case: Dict[str, Any]) -> bool:
+    """Some chained set of the supplied areas that contains an origin-spanning one is given the
+    whole record by the pinned connect_locations although its span is smaller (candidate clusters
+    and regions are spans of such sets)."""
+    length = case["L"]
+    arcs = [list(arc) for _, arc in case["areas"]]
+    masks = [arc_mask(arc, length) for arc in arcs]
+    for size in range(2, len(arcs) + 1):
+        for subset in itertools.combinations(range(len(arcs)), size):
+            if not any(spans_origin(arcs[i]) for i in subset):
+                continue
+            pairs = [(a, b) for a in range(size) for b in range(a + 1, size)
+                     if masks[subset[a]] & masks[subset[b]]]
+            if len(components(size, pairs)) != 1:
+                continue
+            union = 0
+            for i in subset:
+                union |= masks[i]
+            if _pinned_connect([arcs[i] for i in subset], length, False) != union:
+                return True
+    return False
+
+
 def _is_f2(clause: str, case: Dict[str, Any]) -> bool:
     """Ring, an origin-spanning area chained with an area on the "other side" of the pinned
     pre/post-origin chunk split: connect_locations returns the whole record instead of the span,
@@ -654,6 +734,8 @@ def _is_f2(clause: str, case: Dict[str, Any]) -> bool:
         return False
     if not any(spans_origin(arc) for _, arc in case["areas"]):
         return False
+    if clause == "region-span-exact" and _some_span_inflated(case):
+        return True
     raises, sections, region_masks, arcs = _model_regions(case, exact=False)
     if clause == "creation-succeeds":
         return raises
